@@ -708,7 +708,7 @@ func (e *Engine) mapUpdate(m *Map, key, val Value) {
 	if i >= 0 {
 		en := m.entries[i]
 		old := en.val
-		e.undo = append(e.undo, undoRec{mfn: func() { en.val = old }})
+		e.undo = append(e.undo, undoRec{old: func() { en.val = old }})
 		en.val = val
 		return
 	}
@@ -722,7 +722,7 @@ func (e *Engine) mapUpdate(m *Map, key, val Value) {
 	} else {
 		m.sym = append(m.sym, idx)
 	}
-	e.undo = append(e.undo, undoRec{mfn: func() {
+	e.undo = append(e.undo, undoRec{old: func() {
 		m.entries = m.entries[:idx]
 		m.n--
 		if conc {
@@ -748,7 +748,7 @@ func (e *Engine) mapDelete(m *Map, key Value) {
 	if conc {
 		delete(m.index, enc)
 	}
-	e.undo = append(e.undo, undoRec{mfn: func() {
+	e.undo = append(e.undo, undoRec{old: func() {
 		en.deleted = false
 		m.n++
 		if conc {
